@@ -309,7 +309,7 @@ pub fn run(ctx: &mut Ctx) {
         random multi-cut schedules with geometric piece sizes (1 .. 33000); each (file, schedule) is one evaluation run through StreamingDecoder::update and (most) through Reader behind a piece-limited BufRead; \
         non-trivial = at least one cut; distinct = hash(file, schedule)".into();
     let mut rng = ctx.rng.fork(1);
-    let files = corpus::mixed_files(&mut rng, ctx.n(60, 400), ctx.n(40, 300), ctx.n(120, 1416));
+    let files = corpus::mixed_files(&mut rng, ctx.n(150, 400), ctx.n(100, 300), ctx.n(300, 1416));
     let lines: Vec<String> = files.iter().map(|f| format!("frm run {} max {} -", opts_string(&DEFAULT_OPTS), hex(&f.bytes))).collect();
     let answers = model::ask(&lines);
     // large files: matches at the maximum deflate distance across window compactions; chunks beyond the 32 KiB buffer
